@@ -846,7 +846,8 @@ def _sptenmat_ctor_case(draw, tier):
     form = draw(st.sampled_from(["both", "both", "rdims", "cdims"]))
     c["split"] = dict(form="both", rdims=r, cdims=cd) if form == "both" else (
         dict(form="rdims", rdims=r) if form == "rdims" else dict(form="cdims", cdims=cd))
-    c["source"] = draw(st.sampled_from(["subs", "dense", "coo", "csr"]))
+    c["source"] = draw(st.sampled_from(["subs", "dense", "coo", "csr", "csc", "coo-dups", "coo-zero"]))
+    c["extra"] = draw(st.integers(0, 10**6))  # which entry is split in two / where the explicit zero goes
     return c
 
 
@@ -880,8 +881,26 @@ def sptenmat_constructor(ctx, case):
         elif src == "dense":
             M = ttb.sptenmat.from_array(E.copy(), tshape=ts, **kw)
         else:
-            coo = sparse.coo_matrix((vals, (np.array(rows, dtype=int), np.array(cols, dtype=int))), shape=E.shape)
-            M = ttb.sptenmat.from_array(coo if src == "coo" else coo.tocsr(), tshape=ts, **kw)
+            r_, c_, v_ = list(rows), list(cols), [float(v) for v in vals]
+            if src == "coo-dups" and v_:
+                # one entry given as two summands (2v and -v: exact in floating point)
+                # (only for magnitudes where doubling neither overflows nor leaves the normal range)
+                safe = [i for i, v in enumerate(v_) if 1e-300 < abs(v) < 1e300]
+                if safe:
+                    k = safe[case["extra"] % len(safe)]
+                    r_.append(r_[k]), c_.append(c_[k]), v_.append(-v_[k])
+                    v_[k] = 2.0 * v_[k]
+            if src == "coo-zero":
+                # an explicitly stored zero at a cell that is zero anyway: the matrix denotes the same array
+                zs = np.argwhere(E == 0)
+                if len(zs):
+                    z = zs[case["extra"] % len(zs)]
+                    pos = case["extra"] % (len(v_) + 1)
+                    r_.insert(pos, int(z[0])), c_.insert(pos, int(z[1])), v_.insert(pos, 0.0)
+            coo = sparse.coo_matrix((np.array(v_, dtype=float), (np.array(r_, dtype=int), np.array(c_, dtype=int))),
+                                    shape=E.shape)
+            m = coo.tocsr() if src == "csr" else (coo.tocsc() if src == "csc" else coo)
+            M = ttb.sptenmat.from_array(m, tshape=ts, **kw)
     _check_sptenmat(ctx, M, A, rd, cd, "sptenmat()")
     _sptenmat_conversions(ctx, M, A, E, rd, cd, "sptenmat()")
 
@@ -907,6 +926,8 @@ PREDICATES = {
     "sum_has_order1_ktensor": lambda c: len(c["shape"]) == 1 and any(p["holder"] == "ktensor" for p in c["parts"]),
     "empty_side_and_nonzeros": lambda c: (not _split_sides(c)[0] or not _split_sides(c)[1]) and _case_nnz(c) > 0,
     "no_nonzeros": lambda c: _case_nnz(c) == 0,
+    "from_csc": lambda c: c.get("source") == "csc",
+    "from_coo_zero": lambda c: c.get("source") == "coo-zero",
     "order1_sparse_core": lambda c: len(c["shape"]) == 1 and bool(c["sparse_core"]) and any(v != 0 for v in c["core"]),
     "sum_has_order1_sparse_core_ttensor": lambda c: len(c["shape"]) == 1 and any(
         p["holder"] == "ttensor" and p["sparse_core"] and any(v != 0 for v in p["core"]) for p in c["parts"]),
